@@ -43,10 +43,14 @@ func genKeyLine(r *Rng, key string, strict bool) string {
 // genYaml returns the text and whether it stays inside the property's quantifier
 // (other lines contain no key; key lines are plain `key: value`)
 func genYaml(r *Rng) (string, bool) {
+	return genYamlMode(r, r.Intn(4))
+}
+
+// mode: 0 ids only, 1 titles only, 2 both per test, 3 random mix
+func genYamlMode(r *Rng, mode int) (string, bool) {
 	var lines []string
 	strict := r.Chance(2, 3)
 	n := r.Range(0, 14)
-	mode := r.Intn(4) // 0 ids only, 1 titles only, 2 both per test, 3 random mix
 	for i := 0; i < n; i++ {
 		switch {
 		case r.Chance(1, 3):
@@ -102,9 +106,40 @@ func isBlankASCII(s string) bool {
 
 // checkRenumberProperty evaluates the C13 statement on the implementation's output.
 func checkRenumberProperty(res *Result, ruleId string, in string, out string, again string) {
-	fail := func(shape, detail string) {
+	checkRenumberPropertyF(func(shape, detail string) {
 		res.addFailure(Failure{Kind: "renumber", Shape: shape, Input: map[string]string{"rule": ruleId, "contents": in}, Detail: detail})
+	}, ruleId, in, out, again)
+}
+
+// what the code's single running index (known finding C13-mixed-fields) makes of the key lines of
+// ONE file, counters starting at zero: the only deviation from the statement the finding covers
+func sharedIndexLines(ruleId string, inLines []string) []string {
+	out := make([]string, len(inLines))
+	index, ids, titles := 0, 0, 0
+	for i, l := range inLines {
+		out[i] = l
+		m := specKeyRe.FindStringSubmatch(l)
+		if m == nil {
+			continue
+		}
+		if m[2] == "test_id" {
+			ids++
+			if ids > index {
+				index++
+			}
+			out[i] = m[1] + "test_id: " + strconv.Itoa(index)
+		} else {
+			titles++
+			if titles > index {
+				index++
+			}
+			out[i] = m[1] + "test_title: " + ruleId + "-" + strconv.Itoa(index)
+		}
 	}
+	return out
+}
+
+func checkRenumberPropertyF(fail func(shape, detail string), ruleId string, in string, out string, again string) {
 	if again != out {
 		fail("renumber_not_idempotent", fmt.Sprintf("second application changes the bytes: %q -> %q", clip(out, 300), clip(again, 300)))
 	}
@@ -160,7 +195,7 @@ func checkRenumberProperty(res *Result, ruleId string, in string, out string, ag
 		}
 		if outLines[i] != want {
 			shape := "renumber_wrong_number"
-			if ids > 0 && titles > 0 {
+			if ids > 0 && titles > 0 && outLines[i] == sharedIndexLines(ruleId, inLines)[i] {
 				shape = "mixed_fields_shared_index"
 			}
 			_ = mixedDiverged
